@@ -5,7 +5,7 @@
 From Coq Require Import List NArith ZArith QArith Bool String Lia.
 From NV Require Import Prelude.Str Prelude.Res Equiv.WiringGlue.
 From NV Require Import Gen.WiringGen.
-From NV Require Model.Ip Model.CertAuth Gen.PyGen Equiv.Equiv.
+From NV Require Model.Ip Model.CertAuth Model.Proxy Model.ServerProto Gen.PyGen Equiv.Equiv Gen.MwGen Equiv.EquivMw.
 Import ListNotations.
 Open Scope list_scope.
 
@@ -449,4 +449,234 @@ Proof.
     rewrite wiring_order_tie. unfold wiring_order. cbn [filter]. rewrite !W. reflexivity.
   - fold (chain (ServerConfig_enable_rate_limiting c) (Some (gen_get_rate_limit_config c)) (gen_get_access_control_config c) x).
     rewrite chain_none_iff. split; intros H k; [rewrite <- W|rewrite W]; apply H.
+Qed.
+
+(* ================= C17: locations -> router ================= *)
+(* a or d on Optional int / int: None and 0 are false *)
+Definition value_or (o : option Z) (d : Z) : Z := match o with Some v => if Z.eqb v 0 then d else v | None => d end.
+
+(* the handler of a location, from THAT location's fields (and the two documented fall-backs: the server-wide listing flag
+   and max_file_size); AssertionError: create_handler's asserts *)
+Definition handler_of (c : py_ServerConfig) (edl : bool) (loc : py_LocationConfig) : res handler :=
+  match LocationConfig_handler_type loc with
+  | HandlerType_STATIC =>
+      match LocationConfig_document_root loc with
+      | Some d => Ok (H_StaticFileHandler d (Some (LocationConfig_default_indices loc))
+                                          (LocationConfig_enable_directory_listing loc || edl)
+                                          (Some (value_or (LocationConfig_max_file_size loc) (ServerConfig_max_file_size c))))
+      | None => Err (lit "AssertionError") []
+      end
+  | HandlerType_PROXY =>
+      match LocationConfig_upstream loc with
+      | Some u => Ok (H_ProxyHandler u (LocationConfig_prefix loc) (LocationConfig_strip_prefix loc) (LocationConfig_timeout loc))
+      | None => Err (lit "AssertionError") []
+      end
+  end.
+
+Section Routes.
+Variables (REQ RX : Type) (rc : str -> option RX) (handle_of : handler -> REQ -> ServerProto.resp)
+          (c : py_ServerConfig) (edl : bool).
+
+Definition route_of (loc : py_LocationConfig) (h : handler) : MwGen.py_Route REQ RX :=
+  MwGen.mk_py_Route (LocationConfig_prefix loc) (handle_of h) MwGen.RouteType_PREFIX None.
+
+(* one route per location, in order; the first location whose handler cannot be built stops everything *)
+Fixpoint routes_of (ls : list py_LocationConfig) : res (list (MwGen.py_Route REQ RX)) :=
+  match ls with
+  | [] => Ok []
+  | l :: ls' =>
+      match handler_of c edl l with
+      | Ok h => match routes_of ls' with Ok rs => Ok (route_of l h :: rs) | Err k m => Err k m | OutOfModel => OutOfModel end
+      | Err k m => Err k m
+      | OutOfModel => OutOfModel
+      end
+  end.
+
+Definition location_router_spec : res (option (routes REQ RX)) :=
+  match ServerConfig_locations c with
+  | None | Some [] => Ok None
+  | Some ls => match routes_of ls with Ok rs => Ok (Some rs) | Err k m => Err k m | OutOfModel => OutOfModel end
+  end.
+End Routes.
+
+(* LocationConfig.__post_init__ *)
+Definition norm_prefix (p : str) : str := if prefixb (lit "/") p then p else lit "/" ++ p.
+Definition post_init_spec (ex isd : pathlike -> bool) (l : py_LocationConfig) : res py_LocationConfig :=
+  let p := norm_prefix (LocationConfig_prefix l) in
+  match LocationConfig_handler_type l with
+  | HandlerType_STATIC =>
+      match LocationConfig_document_root l with
+      | None => Err (lit "ValueError") []
+      | Some d =>
+          let d' := if pathlike_is_str d then pathlike_to_path d else d in
+          if ex d' then
+            if isd d' then Ok (mk_py_LocationConfig p HandlerType_STATIC (Some d') (LocationConfig_enable_directory_listing l)
+                                 (LocationConfig_default_indices l) (LocationConfig_max_file_size l) (LocationConfig_upstream l)
+                                 (LocationConfig_strip_prefix l) (LocationConfig_timeout l))
+            else Err (lit "ValueError") []
+          else Err (lit "ValueError") []
+      end
+  | HandlerType_PROXY =>
+      match LocationConfig_upstream l with
+      | None => Err (lit "ValueError") []
+      | Some u =>
+          if prefixb (lit "gemini://") u
+          then Ok (mk_py_LocationConfig p HandlerType_PROXY (LocationConfig_document_root l) (LocationConfig_enable_directory_listing l)
+                     (LocationConfig_default_indices l) (LocationConfig_max_file_size l) (Some u)
+                     (LocationConfig_strip_prefix l) (LocationConfig_timeout l))
+          else Err (lit "ValueError") []
+      end
+  end.
+
+(* the URL a handler object forwards to (ProxyHandler.__init__ keeps upstream.rstrip("/"), prefix, strip_prefix: checked by
+   the translator; _handle_async's URL construction is PyGen.gen_upstream_url, Equiv.upstream_url_tie) *)
+Definition handler_upstream_url (h : handler) (path query : str) : option str :=
+  match h with
+  | H_ProxyHandler u p s _ => Some (PyGen.gen_upstream_url (Proxy.rstrip_slash u) p s path query)
+  | H_StaticFileHandler _ _ _ _ => None
+  end.
+
+Lemma location_router_tie : forall REQ RX rc handle_of c edl,
+  gen_get_location_router REQ RX rc handle_of c edl = location_router_spec REQ RX handle_of c edl.
+Proof.
+  intros. unfold gen_get_location_router, location_router_spec.
+  destruct (ServerConfig_locations c) as [ls|]; [|reflexivity].
+  cbv beta match zeta delta [negb].
+  match goal with |- context [?F ls ?a] =>
+    assert (G : forall l acc, F l acc = match routes_of REQ RX handle_of c edl l with
+                                        | Ok rs => Ok (Some (acc ++ rs))
+                                        | Err k m => Err k m
+                                        | OutOfModel => OutOfModel
+                                        end)
+  end.
+  { induction l as [|x l IH]; intro acc.
+    - cbn. rewrite app_nil_r. reflexivity.
+    - cbn [routes_of]. unfold handler_of.
+      destruct x as [p ht dr li di mf up sp tm]. cbn -[routes_of MwGen.gen_router_add_route].
+      destruct ht; cbn -[routes_of MwGen.gen_router_add_route].
+      + destruct dr as [d|]; [|reflexivity]. cbn. rewrite IH.
+        destruct (routes_of REQ RX handle_of c edl l); try reflexivity. rewrite <- app_assoc. reflexivity.
+      + destruct up as [u|]; [|reflexivity]. cbn. rewrite IH.
+        destruct (routes_of REQ RX handle_of c edl l); try reflexivity. rewrite <- app_assoc. reflexivity. }
+  rewrite G. destruct ls as [|l ls]; [reflexivity|].
+  destruct (routes_of REQ RX handle_of c edl (l :: ls)); reflexivity.
+Qed.
+
+(* exactly one route per location, in the order of the locations, PREFIX with the location's prefix, the handler built
+   from that location *)
+Lemma routes_of_each : forall REQ RX handle_of c edl ls rs,
+  routes_of REQ RX handle_of c edl ls = Ok rs ->
+  Forall2 (fun loc r => exists h, handler_of c edl loc = Ok h /\ r = route_of REQ RX handle_of loc h) ls rs.
+Proof.
+  intros REQ RX handle_of c edl. induction ls as [|l ls IH]; intros rs H.
+  - inversion H. constructor.
+  - cbn [routes_of] in H. destruct (handler_of c edl l) as [h| |] eqn:E; try discriminate H.
+    destruct (routes_of REQ RX handle_of c edl ls) as [rs'| |]; try discriminate H. inversion H; subst.
+    constructor; [exists h; split; [exact E|reflexivity]|apply IH; reflexivity].
+Qed.
+
+Lemma routes_of_shape : forall REQ RX handle_of c edl ls rs,
+  routes_of REQ RX handle_of c edl ls = Ok rs ->
+  List.length rs = List.length ls /\
+  map (fun r => (MwGen.Route_pattern r, MwGen.Route_route_type r)) rs =
+  map (fun loc => (LocationConfig_prefix loc, MwGen.RouteType_PREFIX)) ls.
+Proof.
+  intros REQ RX handle_of c edl ls rs H. apply routes_of_each in H.
+  induction H as [|loc r ls rs [h [_ ->]] _ [IH1 IH2]]; [split; reflexivity|].
+  cbn. rewrite IH1, IH2. split; reflexivity.
+Qed.
+
+(* Router.route over those routes: the first location whose prefix matches, with that location's handler *)
+Lemma location_routing : forall REQ RX handle_of c edl req_path rxm ls rs dflt request,
+  routes_of REQ RX handle_of c edl ls = Ok rs ->
+  MwGen.gen_router_route REQ RX req_path rxm rs dflt request =
+  match find (fun loc => prefixb (LocationConfig_prefix loc) (req_path request)) ls with
+  | Some loc => match handler_of c edl loc with Ok h => handle_of h request | _ => EquivMw.or_default dflt request end
+  | None => EquivMw.or_default dflt request
+  end.
+Proof.
+  intros REQ RX handle_of c edl req_path rxm ls rs dflt request H.
+  rewrite EquivMw.router_route_first_match. apply routes_of_each in H.
+  induction H as [|loc r ls rs [h [E ->]] _ IH]; [reflexivity|].
+  cbn [find]. change (EquivMw.py_matches rxm (req_path request) (route_of REQ RX handle_of loc h))
+    with (prefixb (LocationConfig_prefix loc) (req_path request)).
+  destruct (prefixb (LocationConfig_prefix loc) (req_path request)); [rewrite E; reflexivity|exact IH].
+Qed.
+
+(* two locations get the same handler only if every field a handler is built from agrees *)
+Lemma handler_of_injective : forall c edl l1 l2 h,
+  handler_of c edl l1 = Ok h -> handler_of c edl l2 = Ok h ->
+  LocationConfig_handler_type l1 = LocationConfig_handler_type l2 /\
+  match h with
+  | H_ProxyHandler _ _ _ _ =>
+      LocationConfig_upstream l1 = LocationConfig_upstream l2 /\ LocationConfig_prefix l1 = LocationConfig_prefix l2 /\
+      LocationConfig_strip_prefix l1 = LocationConfig_strip_prefix l2 /\ LocationConfig_timeout l1 = LocationConfig_timeout l2
+  | H_StaticFileHandler _ _ _ _ =>
+      LocationConfig_document_root l1 = LocationConfig_document_root l2 /\
+      LocationConfig_default_indices l1 = LocationConfig_default_indices l2 /\
+      (LocationConfig_enable_directory_listing l1 || edl) = (LocationConfig_enable_directory_listing l2 || edl) /\
+      value_or (LocationConfig_max_file_size l1) (ServerConfig_max_file_size c) =
+      value_or (LocationConfig_max_file_size l2) (ServerConfig_max_file_size c)
+  end.
+Proof.
+  intros c edl l1 l2 h H1 H2. unfold handler_of in H1, H2.
+  destruct (LocationConfig_handler_type l1), (LocationConfig_handler_type l2);
+    destruct (LocationConfig_document_root l1), (LocationConfig_document_root l2);
+    destruct (LocationConfig_upstream l1), (LocationConfig_upstream l2);
+    try discriminate H1; try discriminate H2; inversion H1; subst h; inversion H2; subst;
+    repeat split; try reflexivity; try congruence.
+Qed.
+
+(* a proxy location forwards to ITS upstream with ITS prefix / strip_prefix (Model.Proxy.upstream_url: the C17 object) *)
+Lemma proxy_location_url : forall c edl loc u path query,
+  LocationConfig_handler_type loc = HandlerType_PROXY -> LocationConfig_upstream loc = Some u ->
+  exists h, handler_of c edl loc = Ok h /\
+  handler_upstream_url h path query =
+  Some (Proxy.upstream_url {| Proxy.px_upstream := u; Proxy.px_prefix := LocationConfig_prefix loc;
+                              Proxy.px_strip := LocationConfig_strip_prefix loc |} path query).
+Proof.
+  intros c edl loc u path query Ht Hu. unfold handler_of. rewrite Ht, Hu. eexists. split; [reflexivity|].
+  cbn [handler_upstream_url]. f_equal.
+  exact (Equiv.upstream_url_tie {| Proxy.px_upstream := u; Proxy.px_prefix := LocationConfig_prefix loc;
+                                   Proxy.px_strip := LocationConfig_strip_prefix loc |} path query).
+Qed.
+
+Lemma location_post_init_tie : forall ex isd l, gen_location_post_init ex isd l = post_init_spec ex isd l.
+Proof.
+  intros ex isd [p ht dr li di mf up sp tm]. unfold gen_location_post_init, post_init_spec, norm_prefix.
+  cbn [LocationConfig_prefix LocationConfig_handler_type LocationConfig_document_root LocationConfig_enable_directory_listing
+       LocationConfig_default_indices LocationConfig_max_file_size LocationConfig_upstream LocationConfig_strip_prefix LocationConfig_timeout].
+  destruct (prefixb (lit "/") p), ht, dr as [d|], up as [u|]; cbn -[prefixb]; try reflexivity;
+    try (destruct (pathlike_is_str d); cbn -[prefixb]);
+    repeat match goal with |- context [ex ?x] => destruct (ex x); cbn -[prefixb] end;
+    repeat match goal with |- context [isd ?x] => destruct (isd x); cbn -[prefixb] end;
+    repeat match goal with |- context [prefixb ?a u] => destruct (prefixb a u); cbn -[prefixb] end; reflexivity.
+Qed.
+
+(* a location that passed __post_init__: prefix starts with "/", its handler can be built (no assert fails), a proxy's
+   upstream is a gemini:// URL *)
+Lemma validated_location : forall ex isd l0 l c edl,
+  gen_location_post_init ex isd l0 = Ok l ->
+  prefixb (lit "/") (LocationConfig_prefix l) = true /\
+  LocationConfig_prefix l = norm_prefix (LocationConfig_prefix l0) /\
+  (exists h, handler_of c edl l = Ok h) /\
+  (LocationConfig_handler_type l = HandlerType_PROXY ->
+   exists u, LocationConfig_upstream l = Some u /\ prefixb (lit "gemini://") u = true /\
+             LocationConfig_upstream l0 = Some u /\ LocationConfig_strip_prefix l = LocationConfig_strip_prefix l0 /\
+             LocationConfig_timeout l = LocationConfig_timeout l0).
+Proof.
+  intros ex isd l0 l c edl H. rewrite location_post_init_tie in H. unfold post_init_spec in H.
+  assert (N : prefixb (lit "/") (norm_prefix (LocationConfig_prefix l0)) = true).
+  { unfold norm_prefix. destruct (prefixb (lit "/") (LocationConfig_prefix l0)) eqn:E; [exact E|reflexivity]. }
+  destruct (LocationConfig_handler_type l0) eqn:Ht.
+  - destruct (LocationConfig_document_root l0) as [d|]; [|discriminate H].
+    cbv zeta in H. destruct (ex _); [|discriminate H]. destruct (isd _); [|discriminate H].
+    inversion H; subst l; clear H. cbn. repeat split; try exact N.
+    + unfold handler_of; cbn. eexists; reflexivity.
+    + discriminate.
+  - destruct (LocationConfig_upstream l0) as [u|] eqn:Hu; [|discriminate H].
+    destruct (prefixb (lit "gemini://") u) eqn:G; [|discriminate H].
+    inversion H; subst l; clear H. cbn. repeat split; try exact N.
+    + unfold handler_of; cbn. eexists; reflexivity.
+    + intros _. exists u. repeat split; assumption || reflexivity.
 Qed.
